@@ -227,6 +227,19 @@ func (s *Server) followCheckSome(addr string, followc int, auth string,
 			}
 		}
 	}
+	if pos > 0 {
+		// The windows probed above pin down a common prefix only for a
+		// leader log that never shrinks: after an AOFSHRINK on the leader a
+		// region between two matching windows can differ. Compare the whole
+		// prefix before trusting it.
+		match, err := s.matchChecksums(conn, 0, pos)
+		if err != nil {
+			return 0, err
+		}
+		if !match {
+			pos = 0
+		}
+	}
 	fullpos := pos
 	fname := s.aof.Name()
 	if pos == 0 {
